@@ -645,4 +645,39 @@ theorem decInt_getLast {p : Nat} {q : Int} {d : Char} (h1 : isDigit d = false) (
   exact not_mem_decInt h1 h2 h3 (List.mem_of_getLast? h)
 
 
+/-- the characters `FormatFloat(_, 'f', prec)` can produce -/
+def floatTextChars : Str := c!"NaN+Inf-."
+
+theorem fmtFixed_chars {p : Nat} {f : F64} {c : Char} (h : c ∈ F64.fmtFixed p f) :
+    isDigit c = true ∨ c ∈ floatTextChars := by
+  unfold F64.fmtFixed at h
+  split at h
+  · right; simp [floatTextChars] at h ⊢; rcases h with h | h | h <;> simp [h]
+  · right; simp [floatTextChars] at h ⊢; rcases h with h | h | h | h <;> simp [h]
+  · right; simp [floatTextChars] at h ⊢; rcases h with h | h | h | h <;> simp [h]
+  · simp only at h
+    rcases List.mem_append.mp h with h | h
+    · split at h
+      · right; simp [floatTextChars] at h ⊢; simp [h]
+      · cases h
+    · rcases decFixed_chars h with h | h
+      · exact Or.inl h
+      · right; simp [floatTextChars, h]
+
+theorem not_mem_fmtFixed {p : Nat} {f : F64} {d : Char} (h1 : isDigit d = false) (h2 : d ∉ floatTextChars) :
+    d ∉ F64.fmtFixed p f := by
+  intro h
+  rcases fmtFixed_chars h with h | h
+  · simp [h] at h1
+  · exact h2 h
+
+theorem fmtFixed_head {p : Nat} {f : F64} {d : Char} (h1 : isDigit d = false) (h2 : d ∉ floatTextChars) :
+    (F64.fmtFixed p f).head? ≠ some d := by
+  intro h
+  exact not_mem_fmtFixed h1 h2 (List.mem_of_mem_head? (by rw [h]; rfl))
+
+theorem not_mem_durFmt5 {d : Int} {c : Char} (h1 : isDigit c = false) (h2 : c ∉ floatTextChars) : c ∉ durFmt5 d :=
+  not_mem_fmtFixed h1 h2
+
+
 end Hls.Playlist
